@@ -29,7 +29,7 @@ def one(sid, checks):
     rc, out = sh("git -C /repo apply %s" % os.path.join(d, "patch.diff"))
     if rc != 0:
         print(sid, "patch does not apply:", out[:300])
-        sh("git -C /repo checkout -- .")
+        sh("git -C /repo checkout -- . && git -C /repo clean -fdq -- pkg cmd '*.go'")  # (a patch may add files; e2e/memtest/memtest was untracked before and stays)
         return
     caught = []
     try:
@@ -43,7 +43,7 @@ def one(sid, checks):
                 caught.append(c)
             print("  %s check %s: rc=%d %s" % (sid, c, rc, (fail[0][:260] if fail else out.strip().splitlines()[-1][:200])))
     finally:
-        sh("git -C /repo checkout -- .")
+        sh("git -C /repo checkout -- . && git -C /repo clean -fdq -- pkg cmd '*.go'")  # (a patch may add files; e2e/memtest/memtest was untracked before and stays)
     meta["verdict"] = "caught-by:" + ",".join(caught) if caught else "MISSED"
     meta["repo_head"] = sh("git -C /repo rev-parse --short HEAD")[1].strip()
     json.dump(meta, open(os.path.join(d, "meta.json"), "w"), indent=1)
